@@ -146,7 +146,26 @@ fn shape_of(t: &Tree) -> Shape {
     }
 }
 
+/// the shape with every text width blanked (map entries re-sorted, because the sort key contains the width)
+fn without_widths(s: &Shape) -> Shape {
+    match s {
+        Shape::Scalar(k) => Shape::Scalar(k),
+        Shape::Text(_, e) => Shape::Text(0, *e),
+        Shape::List(v) => Shape::List(v.iter().map(|(c, x)| (*c, without_widths(x))).collect()),
+        Shape::Map(v) => {
+            let mut v: Vec<(usize, Shape)> = v.iter().map(|(c, x)| (*c, without_widths(x))).collect();
+            v.sort_by_key(|x| format!("{x:?}"));
+            Shape::Map(v)
+        }
+    }
+}
+
 fn shape_diff(a: &Shape, b: &Shape) -> &'static str {
+    // map entries are compared as sorted multisets and the sort key contains the text width: when only widths differ
+    // the entries pair up wrongly and the positional walk below would name another class
+    if without_widths(a) == without_widths(b) {
+        return "text-width";
+    }
     fn regs(x: &[(usize, Shape)], y: &[(usize, Shape)], count: &'static str) -> &'static str {
         if x.len() != y.len() {
             return count;
